@@ -222,6 +222,13 @@ pub fn gen_magic_batch(d: &mut D) -> Vec<Spec> {
         s.container.forward_attrs = Fwd::List(vec![]);
         s.magic = vec![magic("attrs"), magic("ident")];
         specs.push(s);
+        // nothing is read, but a non-empty list of names is forwarded
+        let sid = next(&specs);
+        let mut s = base_spec(sid, tr, "c16");
+        s.container.attributes = vec![];
+        s.container.forward_attrs = Fwd::List(vec!["doc".into(), "foo".into(), "other::path".into()]);
+        s.magic = vec![magic("attrs"), magic("ident")];
+        specs.push(s);
         // the same with a custom converter on `attrs` (it must still be called, with nothing)
         let sid = next(&specs);
         let mut s = base_spec(sid, tr, "c16");
@@ -346,7 +353,22 @@ fn gen_field_in(w: &World, recv: Option<&Spec>, d: &mut D, mode: Mode, st: &mut 
     FieldIn {
         attrs: gen_attrset(w, recv, d, mode, st, true),
         vis: d.pick(VISES).to_string(),
-        name: if named { Some(if d.ratio(1, 8) { "r#type".to_string() } else { format!("fld{}", j) }) } else { None },
+        name: if named {
+            // sometimes the input field is called exactly like one of the options its receiver reads (the location
+            // path `size/size` is then right: the field, then the option)
+            let option_names: Vec<String> = recv
+                .map(|r| r.fields().iter().filter(|f| !f.skip && !f.flatten).map(|f| crate::model::field_name(f, &r.container)).filter(|n| syn::parse_str::<syn::Ident>(n).is_ok()).collect())
+                .unwrap_or_default();
+            Some(if d.ratio(1, 8) {
+                "r#type".to_string()
+            } else if !option_names.is_empty() && d.ratio(1, 5) {
+                d.pick(&option_names).clone()
+            } else {
+                format!("fld{}", j)
+            })
+        } else {
+            None
+        },
         ty: d.pick(TYPES).to_string(),
     }
 }
